@@ -1,6 +1,7 @@
 package actor
 
 import (
+	"github.com/kercylan98/vivid/internal/verifhook"
 	"reflect"
 	"sync/atomic"
 
@@ -31,6 +32,7 @@ type killedHandler struct {
 // handleChildDeath 处理子 Actor 死亡
 func (h *killedHandler) handleChildDeath() {
 	if !h.message.Ref.Equals(h.ctx.ref) {
+		verifhook.At("ctx.children.w", h.ctx, nil)
 		delete(h.ctx.children, h.message.Ref.GetPath())
 		h.ctx.executeBehaviorWithRecovery(h.behavior)
 		h.ctx.Logger().Debug("child death", log.Int("children_count", len(h.ctx.children)), log.String("ref", h.ctx.ref.GetPath()), log.String("child", h.message.Ref.GetPath()))
@@ -40,6 +42,7 @@ func (h *killedHandler) handleChildDeath() {
 // checkAndMarkKilled 检查并标记为 killed
 func (h *killedHandler) checkAndMarkKilled() {
 	// 如果还有子 Actor，则不处理自身死亡
+	verifhook.At("ctx.children.r", h.ctx, nil)
 	if len(h.ctx.children) != 0 || !atomic.CompareAndSwapInt32(&h.ctx.state, killing, killed) {
 		h.shouldContinue = false
 		return
